@@ -5,7 +5,7 @@
 import os, sys
 sys.path.insert(0, os.path.join(os.environ.get("AIOFTP_REPO", "/repo"), "src"))
 OBLIGATION = 'aioftp.server:Server.user#SEQ::<unit>/exit:I6-holds-a-slot-of-its-user-iff-attached'
-MODEL = {'srv_rest!42': 1, 'u_cur_home!39': 'Empty(Seq(String))', 'restart_offset!11': 0, 'srv_max!1': 1, 'auth_ok!30': True, 'cwd!40': 'Empty(Seq(String))', 'acquired!10': True, 'block_size!0': 1, 'srv_value!28': 0, 'u_err_home!44': 'Empty(Seq(String))', 'logged_done!15': True, 'user_done!13': True, 'user_present!12': True, 'throttle_per_user_has!33': False, 'current_directory_done!17': True, 'current_directory_present!16': True, 'rename_from_present!18': True, 'logged_present!14': True, 'srv_value!29': 0}
+MODEL = {'auth_ok!30': True, 'u_err_home!296': 'Empty(Seq(String))', 'cwd!292': 'Empty(Seq(String))', 'srv_max!1': 1, 'block_size!0': 1, 'u_cur_home!291': 'Empty(Seq(String))', 'acquired!10': True, 'srv_value!28': 0, 'srv_rest!294': 1, 'restart_offset!11': 0, 'logged_done!15': True, 'user_done!13': True, 'user_present!12': True, 'throttle_per_user_has!33': False, 'current_directory_done!17': True, 'current_directory_present!16': True, 'rename_from_present!18': True, 'logged_present!14': True, 'srv_value!29': 0}
 SOLVER_NOTE = ''
 
 print("obligation", OBLIGATION, "failed; no concrete failing input could be constructed automatically")
